@@ -1,6 +1,6 @@
 import Coraza.Model.Operators
 import Coraza.Model.IpMatch
-import Coraza.Model.Regex
+import Coraza.Model.RegexBudget
 /-! Driver engine `op`: `op <name> <arg> <value> => 0|1|ERR` (direct operator call, no negation) -/
 namespace Driver.Op
 open Coraza Coraza.Op
@@ -29,7 +29,7 @@ def eval (name : String) (arg v : Bytes) : Option Bool :=
   | "rx" =>
     -- rx.go:65: "(?sm)" ++ argument; the modelled RE2 fragment over ASCII text
     if allAscii arg && allAscii v then
-      (Coraza.Regex.parse {} (Bytes.ofString "(?sm)" ++ arg)).map (Coraza.Regex.search · v)
+      (Coraza.Regex.parse {} (Bytes.ofString "(?sm)" ++ arg)).bind (Coraza.Regex.searchB 4000 · v)
     else Option.none
   | _ => Option.none
 
